@@ -285,6 +285,51 @@ def run(tier):
                          "%s: field %s of LibraryDescription is not %s: it is lost across runs"
                          % (rel(fn.loc), fld, what))
 
+    # ---- MERGE-ON-EVERY-PATH: in the merge functions, a field that is merged somewhere (a call taking d.F and s.F) is merged on every path to
+    # the normal exit: the union of the runs' descriptions does not depend on what the incoming description looks like
+    for mf in [f for f in funcs if f.parent is None and re.match(r"^mfront::merge\w*Description$", f.qname) and f.entry is not None and len(f.params) == 2]:
+        dn, sn = mf.params[0]["name"], mf.params[1]["name"]
+
+        def merged_field(sid, mf=mf, dn=dn, sn=sn):
+            n = mf.stmts[sid]
+            if n["k"] not in ("CallExpr", "CXXMemberCallExpr", "CXXOperatorCallExpr") or len(n.get("args") or []) < 2:
+                return None
+            if n["k"] == "CXXOperatorCallExpr":
+                return None         # comparisons of d.F with s.F are consistency checks; a conditional 'd.F = s.F' keeps a scalar field in step
+            def member_of(a, base):
+                an = mf.stmts.get(mf.strip(a))
+                if an is not None and an["k"] == "MemberExpr":
+                    b = mf.stmts.get(mf.strip(mf.kids(mf.strip(a))[0]))
+                    if b is not None and b["k"] == "DeclRefExpr" and b.get("name") == base:
+                        return an.get("member")
+                return None
+            fs_ = [member_of(a, dn) for a in n["args"]]
+            ss_ = [member_of(a, sn) for a in n["args"]]
+            for f_ in fs_:
+                if f_ and f_ in ss_:
+                    return f_
+            return None
+        allf = set(x for x in (merged_field(sid) for sid in mf.stmts) if x)
+        if not allf:
+            continue
+        rep.count("merge functions examined on every path")
+
+        def el_m(st, b, i, e):
+            if "s" in e:
+                fld = merged_field(e["s"])
+                if fld:
+                    return (st | frozenset([fld]),)
+            return (st,)
+        IN_, _O = forward(mf, (frozenset(),), el_m)
+        miss = set()
+        for st in IN_.get(mf.exit, ()):
+            miss |= allf - st
+        if miss:
+            rep.fail("MERGE-ON-EVERY-PATH@%s" % mf.qname, "%s: %s can return without merging %s (merged on other paths): what a later run adds to an already "
+                     "registered library is dropped, the registry is no longer the union of the runs' descriptions" % (rel(mf.loc), mf.qname, sorted(miss)))
+        else:
+            rep.ok("%s merges %s on every path to its normal exit" % (mf.qname, sorted(allf)))
+    rep.floor("merge functions examined on every path", 1)
     for wf, rf, name, extra_values in ((w_lib, r_lib, "LibraryDescription", {"SHARED_LIBRARY", "MODULE"}),
                                        (w_tgt, r_tgt, "TargetsDescription", set())):
         wl = writer_labels(wf)
